@@ -19,7 +19,7 @@ pub fn materialize(spec: &str) -> Option<Vec<u8>> {
     if let Some(rest) = spec.strip_prefix("census:alone:") {
         return op_alone_module(rest.parse().ok()?);
     }
-    if spec.starts_with("leb:") || spec.starts_with("lebi:") {
+    if spec.starts_with("leb:") || spec.starts_with("lebi:") || spec.starts_with("lebb:") {
         return materialize_leb(spec);
     }
     if spec.starts_with("dwarf:") {
@@ -76,6 +76,31 @@ pub fn leb_module(nfuncs: usize, big: usize, variant: u64) -> Vec<u8> {
         let code = c.end();
         m.funcs.push(FuncSpec { ty: if with_param { 1 } else { 0 }, locals: if with_local { vec![(1, VT::I32)] } else { vec![] }, code });
         if k % 2 == 0 || nfuncs <= 2 {
+            m.exports.push(Export { name: format!("f{}", k), kind: ExportKind::Func, index: k as u32 });
+        }
+    }
+    m.encode()
+}
+
+/// `nbig` functions of about `size` bytes each (every one different) among `nsmall` small ones: function entries
+/// beyond 32 KiB / 64 KiB / 2^21 bytes (buffer growth, three- and four-byte size LEBs).
+pub fn bigs_module(nbig: usize, nsmall: usize, size: usize) -> Vec<u8> {
+    let mut m = MSpec::default();
+    m.types.push((vec![], vec![VT::I32]));
+    let total = nbig + nsmall;
+    for k in 0..total {
+        // big ones spread over the index space
+        let is_big = nbig > 0 && k % (total / nbig.max(1)).max(1) == 0 && k / (total / nbig.max(1)).max(1) < nbig;
+        let mut c = Code::new();
+        c.i64_const(0x5157_0000_0000 + k as i64).drop_();
+        let reps = if is_big { size / 3 + k } else { (k * 5) % 19 };
+        for i in 0..reps {
+            c.i32_const(((i + k) % 60) as i32).drop_();
+        }
+        c.i32_const(1);
+        let code = c.end();
+        m.funcs.push(FuncSpec { ty: 0, locals: vec![], code });
+        if k % 2 == 0 {
             m.exports.push(Export { name: format!("f{}", k), kind: ExportKind::Func, index: k as u32 });
         }
     }
@@ -142,6 +167,13 @@ pub fn materialize_leb(spec: &str) -> Option<Vec<u8>> {
         let i: usize = it.next()?.parse().ok()?;
         let l: usize = it.next()?.parse().ok()?;
         return Some(lebi_module(i, l));
+    }
+    if let Some(rest) = spec.strip_prefix("lebb:") {
+        let mut it = rest.splitn(3, ':');
+        let nb: usize = it.next()?.parse().ok()?;
+        let ns: usize = it.next()?.parse().ok()?;
+        let sz: usize = it.next()?.parse().ok()?;
+        return Some(bigs_module(nb, ns, sz));
     }
     let rest = spec.strip_prefix("leb:")?;
     let mut it = rest.splitn(3, ':');
@@ -790,7 +822,16 @@ fn attr_modules_build() -> Vec<Vec<u8>> {
                     VT::I64 => CExpr::I64(i64::MIN + i as i64),
                     VT::F32 => CExpr::F32(0x7fa0_0001),
                     VT::F64 => CExpr::F64(0xfff8_0000_dead_beef),
-                    VT::V128 => CExpr::V128([i as u8; 16]),
+                    VT::V128 => {
+                        // sign bit of the 128-bit value set for the mutable one, bit 63 for the other
+                        let mut b = [i as u8; 16];
+                        if mutable {
+                            b[15] |= 0x80;
+                        } else {
+                            b[7] |= 0x80;
+                        }
+                        CExpr::V128(b)
+                    }
                     t => CExpr::RefNull(*t),
                 };
                 m.globals.push((GlobalTy { ty: *t, mutable }, c));
